@@ -88,6 +88,9 @@ def templates(tier, seed):
         ins = {'ld': {'bytecode': code('op', 5), 'operands': {'count': 2, 'operand_sets': {'list': ['regs', 'mem']}}}}
         T4 = [('ld ra, [sp+v1]', {'id': 'ind_sp', 'val': V('v1')}, vrange(osz)),
               ('ld ra, [sp - v1]', {'id': 'ind_sp', 'val': ('neg', V('v1'))}, vrange(osz)),
+              ('ld ra, [sp - v1 + 1]', {'id': 'ind_sp', 'val': ('+', ('neg', V('v1')), ('c', 1))}, vrange(osz)),
+              ('ld ra, [sp - 2 - v1]', {'id': 'ind_sp', 'val': ('-', ('c', -2), V('v1'))}, vrange(osz)),
+              ('ld ra, [sp + v1 - 3]', {'id': 'ind_sp', 'val': ('-', V('v1'), ('c', 3))}, vrange(osz)),
               ('ld ra, [sp]', {'id': 'ind_sp', 'val': ('c', 0)}, None),
               ('ld rb, [ix]', {'id': 'ind_ix'}, None),
               ('ld rb, [v1]', {'id': 'ind_n', 'val': V('v1')}, vrange(16)),
@@ -96,7 +99,7 @@ def templates(tier, seed):
               ('ld ra, v1', {'id': 'imm', 'val': V('v1')}, vrange(8)),
               ('ld ra, t1', {'id': 'imm', 'val': ('lsb', L('t1'))}, None)]
         for i, (text, use, rng) in enumerate(T4):
-            if tagx and (i in (2, 3, 5, 7, 8) or (tier == 'quick' and osz == 12 and i > 1) or (ien == 'big' and i > 1)):
+            if tagx and (i in (5, 6, 8, 10, 11) or (tier == 'quick' and osz == 12 and i > 1) or (ien == 'big' and i > 1)):
                 continue
             if text == 'ld ra, t1':
                 text = 'ld ra, LSB(t1)'
@@ -168,6 +171,14 @@ def templates(tier, seed):
             {'mnemonic': mn, 'text': text, 'uses': [{'set': st_, 'id': oid, 'val': val}]},
             expect=('ok',) if rng is None else ('ok', 'rejected'))
 
+    # a constrained operand reached through a macro: the step is an instruction of its own (own address, own size)
+    macros = {'njr': [{'operands': {'count': 1, 'operand_sets': {'list': ['valid']}}, 'instructions': ['nop', 'jrele @ARG(0)']}],
+              'njr3': [{'operands': {'count': 1, 'operand_sets': {'list': ['valid']}}, 'instructions': ['nop', 'nop', 'jrel @ARG(0)', 'nop']}]}
+    add('t6:macro-step:njr v1', isa(operand_sets=osets, instructions=ins, zones=zones, consts={'v1': (0, 0x8000)}, macros=macros),
+        {'mnemonic': 'jrele', 'text': 'njr v1', 'lead_bytes': [0], 'uses': [{'set': 'rele', 'id': 'r', 'val': V('v1')}]}, expect=('ok', 'rejected'))
+    add('t6:macro-step:njr t0', isa(operand_sets=osets, instructions=ins, zones=zones, macros=macros),
+        {'mnemonic': 'jrele', 'text': 'njr t0', 'lead_bytes': [0], 'uses': [{'set': 'rele', 'id': 'r', 'val': L('t0')}]}, expect=('ok',))
+
     # ---- T7: indexed / indirect indexed registers ------------------------------------------------------------------
     for ien, isz in (('big', 8), ('little', 16), ('little', 12)):
         tagx = '' if (ien, isz) == ('big', 8) else f'{ien[0]}{isz}:'
@@ -236,6 +247,16 @@ def templates(tier, seed):
             cs['v2'] = vrange(16)
         add(f't8:{i}:{text}', isa(instructions=ins, consts=cs), {'mnemonic': mn, 'variant': var, 'text': text, 'uses': uses},
             expect=('ok',) if rng is None else ('ok', 'rejected'))
+    # ---- T9: two variants that both accept a number; only the second takes a register ------------------------------
+    osets = {'imm8': {'operand_values': {'n': {'type': 'numeric', 'bytecode': code('c_n8', 2), 'argument': arg(8, True)}}},
+             'any16': {'operand_values': {'r': {'type': 'register', 'register': 'ra', 'bytecode': code('c_r', 2)},
+                                          'n': {'type': 'numeric', 'bytecode': code('c_n16', 2), 'argument': arg(16, True, 'little')}}}}
+    ins = {'ldv': {'bytecode': code('op0', 6), 'operands': {'count': 1, 'operand_sets': {'list': ['imm8']}},
+                   'variants': [{'bytecode': code('op1', 6), 'operands': {'count': 1, 'operand_sets': {'list': ['any16']}}}]}}
+    add('t9:0:ldv v1', isa(operand_sets=osets, instructions=ins, consts={'v1': vrange(8)}),
+        {'mnemonic': 'ldv', 'variant': 0, 'text': 'ldv v1', 'uses': [{'set': 'imm8', 'id': 'n', 'val': V('v1')}]})
+    add('t9:1:ldv ra', isa(operand_sets=osets, instructions=ins, consts={'v1': vrange(8)}),
+        {'mnemonic': 'ldv', 'variant': 1, 'text': 'ldv ra', 'uses': [{'set': 'any16', 'id': 'r'}]}, expect=('ok',))
     return out
 
 
@@ -255,6 +276,21 @@ def instr_shapes(tier, seed, props, only=None):
                 continue
             pr = {kk: vv for kk, vv in sh.params.items() if kk != 'files'}
             S.append(InstrShape(f'{c}:{sh.sid}', context=c, **pr))
+    # instructions with several variants: the statement again, preceded (muted) by the other forms of its mnemonic -
+    # which variant a statement gets must not depend on what was assembled earlier
+    import re as _re
+    groups = {}
+    for sh in S:
+        c = sh.params['config']
+        if sh.params.get('context') or not any('variants' in i for i in c['instructions'].values()):
+            continue
+        groups.setdefault(repr(c['instructions']) + repr(c.get('operand_sets')), []).append(sh)
+    for shs in groups.values():
+        for sh in shs:
+            others = [_re.sub(r'\bv\d\b', '1', o.params['stmt']['text']) for o in shs if o is not sh]
+            if others:
+                pr = {kk: vv for kk, vv in sh.params.items() if kk != 'files'}
+                S.append(InstrShape('after-other-forms:' + sh.sid, prelude=others, **pr))
     return S
 
 
